@@ -299,7 +299,19 @@ def rule_parity(ctx, R):
 def rule_sha(ctx, R):
     """EVALSHA runs the cached source unmodified through the same entry as EVAL"""
     b = ctx.prog.need(SERVER + "handle_evalsha_command")
-    ev = [i for i, t in b.calls() if callee(t) == "storage::commands::lua::handle_eval_with_db"]
+    EVAL_ENTRY = "storage::commands::lua::handle_eval_with_db"
+    ev = [i for i, t in b.calls() if callee(t) == EVAL_ENTRY]
+    if not ev and EVAL_ENTRY in ctx.prog.bodies:
+        # a common entry below both: EVALSHA calls a function of the script command layer that
+        # EVAL's entry calls too and that runs the script (reaches LuaEngine::eval)
+        shared_ = {callee(t) for _, t in ctx.prog.bodies[EVAL_ENTRY].calls() if (callee(t) or "").startswith("storage::commands::lua::")
+                   and "storage::lua_engine::LuaEngine::eval" in ctx.cg.reach([callee(t)])}
+        ev = [i for i, t in b.calls() if callee(t) in shared_]
+        if not ev:
+            # the common helper was inlined into both: both bodies call the engine themselves
+            LE = "storage::lua_engine::LuaEngine::eval"
+            if any(callee(t) == LE for _, _, t in shared.deep_calls(ctx, ctx.prog.bodies[EVAL_ENTRY])):
+                ev = [i for _, i, t in shared.deep_calls(ctx, b) if callee(t) == LE]
     get = [i for i, t in b.calls() if re.search(r"ScriptCache::get$|lua_cache::.*::get$", callee(t))]
     R.inst(b.fn, "same-entry", {"calls_handle_eval_with_db": len(ev), "cache_lookups": len(get)})
     if not ev:
